@@ -102,9 +102,11 @@ def estimate_directional_distribution(
     else:
         raise Exception(f"unsupported spectral estimator method: {method}")
 
+    a1, b1, a2, b2 = np.asarray(a1), np.asarray(b1), np.asarray(a2), np.asarray(b2)
     output_shape = list(a1.shape) + [len(direction)]
-    if a1.ndim == 1:
-        input_shape = [1, a1.shape[-1]]
+    if a1.ndim <= 1:
+        # a single set of moments (scalars) or a single point
+        input_shape = [1, a1.size]
     else:
         input_shape = [int(np.prod(a1.shape[0:-1])), a1.shape[-1]]
 
